@@ -541,6 +541,9 @@ pub struct MomCase {
     pub level_k: u32,
     /// mid-price per period, in ticks relative to L
     pub path: Vec<i16>,
+    /// periods in which the ask quote sits one tick further away (odd-width spread, half-tick mid)
+    #[serde(default)]
+    pub widen: Vec<bool>,
     pub n: u16,
     pub p_cancel: u16,
     pub trade_vol: u32,
@@ -570,8 +573,12 @@ fn mom_run(c: &MomCase, mirror: bool) -> Vec<UpdateRec> {
     let mut quotes: Vec<(usize, usize)> = vec![];
     let mut out = vec![];
     for (k, off) in c.path.iter().enumerate() {
-        let off = if mirror { -(*off as i64) } else { *off as i64 };
-        let p = ((c.level_k as i64 + off).max(3) as u32) * tick;
+        let p = ((c.level_k as i64 + *off as i64).max(4) as u32) * tick;
+        let wide = c.widen.get(k).cloned().unwrap_or(false);
+        let (qb, qa) = (p - tick, p + tick + if wide { tick } else { 0 });
+        // the mirrored run mirrors the quotes themselves about L
+        let two_l = 2 * c.level_k * tick;
+        let (qb, qa) = if mirror { (two_l.saturating_sub(qa).max(tick), two_l.saturating_sub(qb).max(2 * tick)) } else { (qb, qa) };
         // replace the harness quotes: cancel the old ones, then place the new ones around p
         {
             let e = env.dynenv_mut();
@@ -582,10 +589,10 @@ fn mom_run(c: &MomCase, mirror: bool) -> Vec<UpdateRec> {
                 e.step(&mut rng);
             }
             let vol = 10_000_000 + k as u32;
-            if let Ok(id) = e.place_order(a, true, vol, HARNESS_TRADER, Some(p - tick)) {
+            if let Ok(id) = e.place_order(a, true, vol, HARNESS_TRADER, Some(qb)) {
                 quotes.push(id);
             }
-            if let Ok(id) = e.place_order(a, false, vol, HARNESS_TRADER, Some(p + tick)) {
+            if let Ok(id) = e.place_order(a, false, vol, HARNESS_TRADER, Some(qa)) {
                 quotes.push(id);
             }
             e.step(&mut rng);
@@ -736,14 +743,15 @@ pub fn mom_case_strategy() -> BoxedStrategy<MomCase> {
             steps.into_iter().map(|s| { p = (p + s).clamp(-150, 150); p }).collect::<Vec<i16>>()
         }),
     ];
-    (any::<bool>(), 0u8..2, 1u32..=10, 500u32..100_000, path, prop_oneof![4 => 1u16..=8, 1 => 9u16..=20], prob_code(), 1u32..=100, (1u32..=1000, prop_oneof![2 => 0u32..5_000, 3 => 5_000u32..200_000], 1u32..=5_000, prop_oneof![1 => Just(0u32), 2 => 0u32..3_000], -2000i32..=3000, 0u32..=3_000), any::<u64>())
-        .prop_map(|(market, asset, tick, level_k, path, n, p_cancel, trade_vol, (decay_milli, demand_milli, scale_milli, ratio_milli, mu_milli, sigma_milli), seed)| MomCase { market, asset, tick, level_k, path, n, p_cancel, trade_vol, decay_milli, demand_milli, scale_milli, ratio_milli, mu_milli, sigma_milli, seed })
+    let widen = prop_oneof![1 => Just(vec![]), 2 => proptest::collection::vec(any::<bool>(), 0..50)];
+    (any::<bool>(), 0u8..2, 1u32..=10, 500u32..100_000, (path, widen), prop_oneof![4 => 1u16..=8, 1 => 9u16..=20], prob_code(), 1u32..=100, (1u32..=1000, prop_oneof![2 => 0u32..5_000, 3 => 5_000u32..200_000], 1u32..=5_000, prop_oneof![1 => Just(0u32), 2 => 0u32..3_000], -2000i32..=3000, 0u32..=3_000), any::<u64>())
+        .prop_map(|(market, asset, tick, level_k, (path, widen), n, p_cancel, trade_vol, (decay_milli, demand_milli, scale_milli, ratio_milli, mu_milli, sigma_milli), seed)| MomCase { market, asset, tick, level_k, path, widen, n, p_cancel, trade_vol, decay_milli, demand_milli, scale_milli, ratio_milli, mu_milli, sigma_milli, seed })
         .boxed()
 }
 
 pub fn parts_c17(tier: Tier) -> (Vec<Part<Case>>, String) {
     (
         vec![Part { name: "momentum-paths".to_string(), kind: PartKind::Random { make: Box::new(|| mom_case_strategy().prop_map(Case::Momentum).boxed()), cases: tier.pick(60_000, 1_500_000) } }],
-        "A case is a mid-price path (rising, falling, zig-zag, flat or a random walk, in ticks about a centre level L) imposed by large harness quotes that are replaced every period, a MomentumAgent or MomentumMarketAgent with generated decay / scale / demand / order ratio / counts / cancel probability, and a seed. Oracle 1: the harness reads the mid-price the agent is about to see, recomputes M = m(1-decay) + decay(P-p) itself and requires: no sells while M > 0, no buys while M < 0, nothing while M = 0, and at saturated demand (|demand*tanh(scale*M)|/n >= 1) exactly one market order per trader on the side given by the sign of M (and one limit order per trader when order_ratio*|...| >= 1). Oracle 2 (metamorphic): the same seed on the path mirrored about L must emit, update by update, the same orders with buy and sell exchanged and limit prices mirrored; comparison stops once the observed mid-prices are no longer mirror images. Non-trivial: the path has at least one update with M > 0 and one with M < 0 at saturated demand.".to_string(),
+        "A case is a mid-price path (rising, falling, zig-zag, flat or a random walk, in ticks about a centre level L) imposed by large harness quotes that are replaced every period (spreads of even and odd width, so whole-tick and half-tick mid-prices occur), a MomentumAgent or MomentumMarketAgent with generated decay / scale / demand / order ratio / counts / cancel probability, and a seed. Oracle 1: the harness reads the mid-price the agent is about to see, recomputes M = m(1-decay) + decay(P-p) itself and requires: no sells while M > 0, no buys while M < 0, nothing while M = 0, and at saturated demand (|demand*tanh(scale*M)|/n >= 1) exactly one market order per trader on the side given by the sign of M (and one limit order per trader when order_ratio*|...| >= 1). Oracle 2 (metamorphic): the same seed on the path mirrored about L must emit, update by update, the same orders with buy and sell exchanged and limit prices mirrored; comparison stops once the observed mid-prices are no longer mirror images. Non-trivial: the path has at least one update with M > 0 and one with M < 0 at saturated demand.".to_string(),
     )
 }
